@@ -153,16 +153,16 @@ theorem trimNewlines_prefix (x : Bytes) : trimNewlines x <+: x := by
   have := (List.reverse_prefix (l₁ := List.dropWhile (fun b => decide (b = LF)) x.reverse) (l₂ := x.reverse)).2 h
   simpa using this
 
-/-! ### the divider prefix -/
-
-/-- no proper non-empty suffix of the prefix is also a prefix of it -/
-theorem PREFIX_unbordered : ∀ k, k < PREFIX.length → 0 < k → stripPrefix? (PREFIX.drop k) PREFIX = none := by
-  decide
+/-! ### the divider prefix and the salted divider start -/
 
 theorem PREFIX_ne_nil : PREFIX ≠ [] := by decide
 
-theorem stripPrefix_overlap_none (t post : Bytes) (ht : t ≠ []) (hno : ¬ PREFIX <:+: t) :
-    stripPrefix? PREFIX (t ++ PREFIX ++ post) = none := by
+/-- a pattern none of whose proper non-empty suffixes is a prefix of it cannot start inside the
+text in front of its own occurrence -/
+theorem stripPrefix_overlap_none (pat t post : Bytes)
+    (hub : ∀ k, 0 < k → k < pat.length → ¬ pat.drop k <+: pat)
+    (ht : t ≠ []) (hno : ¬ pat <:+: t) :
+    stripPrefix? pat (t ++ pat ++ post) = none := by
   rw [stripPrefix?_eq_none_iff]
   rintro ⟨r, hr⟩
   rw [List.append_assoc] at hr
@@ -171,28 +171,70 @@ theorem stripPrefix_overlap_none (t post : Bytes) (ht : t ≠ []) (hno : ¬ PREF
   · have hc' : c' ≠ [] := by
       intro e; subst e
       exact hno ⟨[], [], by simp at h1; simp [← h1]⟩
-    have hlen : PREFIX.length = t.length + c'.length := by rw [h1]; simp
+    have hlen : pat.length = t.length + c'.length := by rw [h1]; simp
     have hk0 : 0 < t.length := List.length_pos_iff.2 ht
-    have hk1 : t.length < PREFIX.length := by
+    have hk1 : t.length < pat.length := by
       have : 0 < c'.length := List.length_pos_iff.2 hc'
       omega
-    have hdrop : PREFIX.drop t.length = c' := by
+    have hdrop : pat.drop t.length = c' := by
       conv => lhs; rw [h1]
       simp
-    have hpre : c' <+: PREFIX := by
+    have hpre : c' <+: pat := by
       rcases List.append_eq_append_iff.1 h2 with ⟨x, hx, _⟩ | ⟨x, hx, _⟩
-      · have : c'.length = PREFIX.length + x.length := by rw [hx]; simp
+      · have : c'.length = pat.length + x.length := by rw [hx]; simp
         omega
       · exact ⟨x, hx.symm⟩
-    have := PREFIX_unbordered t.length hk1 hk0
-    rw [hdrop, stripPrefix?_eq_none_iff] at this
+    have := hub t.length hk0 hk1
+    rw [hdrop] at this
     exact this hpre
 
-theorem splitFirst_prefix (cur body : Bytes) (h : ¬ PREFIX <:+: cur) :
-    splitFirst PREFIX (cur ++ PREFIX ++ body) = some (cur, body) := by
-  apply splitFirst_append_of_none PREFIX cur body PREFIX_ne_nil
+theorem needle_ne_nil (salt : Bytes) : needle salt ≠ [] := by simp [needle, PREFIX]
+
+/-- the shape of the divider start: eight `~`, then `E`, then bytes that are not `~` -/
+theorem needle_shape (salt : Bytes) (h126 : (126 : UInt8) ∉ salt) :
+    ∃ T, needle salt = 126 :: 126 :: 126 :: 126 :: 126 :: 126 :: 126 :: 126 :: 69 :: T ∧ ∀ x ∈ T, x ≠ (126 : UInt8) := by
+  refine ⟨[88,69,67,68,73,86,73,68,69,82,58,58] ++ salt ++ SEP, by simp [needle, PREFIX], ?_⟩
+  intro x hx
+  simp only [List.mem_append] at hx
+  rcases hx with (hx | hx) | hx
+  · intro e; subst e; revert hx; decide
+  · intro e; subst e; exact h126 hx
+  · intro e; subst e; revert hx; decide
+
+/-- no proper non-empty suffix of the divider start is a prefix of it (salt without `~`) -/
+theorem needle_unbordered (salt : Bytes) (h126 : (126 : UInt8) ∉ salt) :
+    ∀ k, 0 < k → k < (needle salt).length → ¬ (needle salt).drop k <+: needle salt := by
+  intro k hk0 hk1 hpre
+  obtain ⟨T, hT, htail⟩ := needle_shape salt h126
+  have h69 : (69 : UInt8) ≠ 126 := by decide
+  rw [hT] at hpre hk1
+  rcases k with _ | _ | _ | _ | _ | _ | _ | _ | k
+  · omega
+  all_goals try (simp [List.cons_prefix_cons, h69] at hpre; done)
+  · -- k ≥ 8: the suffix starts with a byte that is not `~`
+    have hd : List.drop (k + 1 + 1 + 1 + 1 + 1 + 1 + 1 + 1)
+        (126 :: 126 :: 126 :: 126 :: 126 :: 126 :: 126 :: 126 :: 69 :: T) = List.drop k (69 :: T) := by
+      simp
+    rw [hd] at hpre
+    cases hx : List.drop k (69 :: T) with
+    | nil =>
+      have := List.drop_eq_nil_iff.1 hx
+      simp only [List.length_cons] at this hk1
+      omega
+    | cons x xs =>
+      rw [hx] at hpre
+      have hx126 : x = 126 := (List.cons_prefix_cons.1 hpre).1
+      have hmem : x ∈ (69 :: T : Bytes) := List.mem_of_mem_drop (by rw [hx]; simp)
+      rcases List.mem_cons.1 hmem with h | h
+      · exact h69 (h ▸ hx126)
+      · exact htail x h hx126
+
+theorem splitFirst_needle (salt cur tail : Bytes) (h126 : (126 : UInt8) ∉ salt) (h : ¬ needle salt <:+: cur) :
+    splitFirst (needle salt) (cur ++ needle salt ++ tail) = some (cur, tail) := by
+  apply splitFirst_append_of_none (needle salt) cur tail (needle_ne_nil salt)
   intro t ht hsuf
-  exact stripPrefix_overlap_none t body ht (fun hin => h (List.IsInfix.trans hin hsuf.isInfix))
+  exact stripPrefix_overlap_none (needle salt) t tail (needle_unbordered salt h126) ht
+    (fun hin => h (List.IsInfix.trans hin hsuf.isInfix))
 
 theorem splitFirst_sep (s t : Bytes) (hs : COLON ∉ s) : splitFirst SEP (s ++ SEP ++ t) = some (s, t) := by
   apply splitFirst_append_of_none SEP s t (by decide)
@@ -206,8 +248,14 @@ theorem splitFirst_sep (s t : Bytes) (hs : COLON ∉ s) : splitFirst SEP (s ++ S
 
 /-! ### the parser on the two kinds of lines -/
 
+/-- what follows the divider start: index and exit code -/
+def tailOf (i c : Nat) : Bytes := dec i ++ SEP ++ dec c
+
 /-- text of a divider line without its LF, after the prefix -/
 def body (salt : Bytes) (i c : Nat) : Bytes := salt ++ SEP ++ dec i ++ SEP ++ dec c
+
+theorem needle_tail (salt : Bytes) (i c : Nat) : needle salt ++ tailOf i c = PREFIX ++ body salt i c := by
+  simp [needle, tailOf, body]
 
 theorem body_snoc (salt : Bytes) (i c : Nat) : ∃ g, body salt i c = g ++ [digit c] := by
   obtain ⟨f, hf⟩ := decF_snoc c c
@@ -223,30 +271,51 @@ theorem lf_not_mem_body (salt : Bytes) (i c : Nat) (hsl : LF ∉ salt) : LF ∉ 
   simp only [body, List.mem_append, not_or]
   exact ⟨h1, ⟨⟨⟨⟨hsl, h2⟩, h3⟩, h2⟩, h4⟩⟩
 
-theorem parseDivider_divider (salt cur : Bytes) (i c : Nat) (hs : COLON ∉ salt)
-    (hcur : ¬ PREFIX <:+: cur) (hi : i < 2 ^ 64) (hc : c < 2 ^ 31) :
-    parseDivider (cur ++ (PREFIX ++ body salt i c) ++ [LF]) =
+/-- `parse_divider_bytes` on the slice that starts at the divider start -/
+theorem parseDivider_bare (salt : Bytes) (i c : Nat) (hs : COLON ∉ salt) (hi : i < 2 ^ 64) (hc : c < 2 ^ 31) :
+    parseDivider (needle salt ++ tailOf i c) = some (.found none i (c : Int)) := by
+  obtain ⟨g, hg⟩ := body_snoc salt i c
+  have hd : digit c ≠ LF := digit_ne c LF (by decide)
+  have htrim : trimNewlines (PREFIX ++ body salt i c) = PREFIX ++ body salt i c := by
+    rw [hg]
+    have : PREFIX ++ (g ++ [digit c]) = (PREFIX ++ g) ++ [digit c] := by simp
+    rw [this, trimNewlines_snoc_ne _ _ hd]
+  have hsp : splitFirst PREFIX (PREFIX ++ body salt i c) = some ([], body salt i c) := by
+    have := splitFirst_append_of_none PREFIX [] (body salt i c) PREFIX_ne_nil
+      (fun t ht hsuf => absurd (List.suffix_nil.1 hsuf) ht)
+    simpa using this
+  have h58 : COLON ∉ dec i := dec_not_mem i COLON (by decide)
+  have hb : body salt i c = salt ++ SEP ++ (dec i ++ SEP ++ dec c) := by simp [body]
+  rw [needle_tail]
+  unfold parseDivider
+  simp only [htrim, hsp]
+  rw [hb]
+  simp only [splitFirst_sep salt _ hs, splitFirst_sep (dec i) _ h58, parseUsize_dec i hi, parseI32_dec c hc]
+  simp
+
+theorem parseSalted_divider (salt cur : Bytes) (i c : Nat) (hs : COLON ∉ salt) (h126 : (126 : UInt8) ∉ salt)
+    (hcur : ¬ needle salt <:+: cur) (hi : i < 2 ^ 64) (hc : c < 2 ^ 31) :
+    parseSalted salt (cur ++ (PREFIX ++ body salt i c) ++ [LF]) =
       some (.found (if cur = [] then none else some cur) i (c : Int)) := by
   obtain ⟨g, hg⟩ := body_snoc salt i c
   have hd : digit c ≠ LF := digit_ne c LF (by decide)
-  have htrim : trimNewlines (cur ++ (PREFIX ++ body salt i c) ++ [LF]) = cur ++ PREFIX ++ body salt i c := by
+  have htrim : trimNewlines (cur ++ (PREFIX ++ body salt i c) ++ [LF]) = cur ++ needle salt ++ tailOf i c := by
     rw [trimNewlines_snoc_lf, hg]
     have : cur ++ (PREFIX ++ (g ++ [digit c])) = (cur ++ PREFIX ++ g) ++ [digit c] := by simp
     rw [this, trimNewlines_snoc_ne _ _ hd]
-    simp
-  have h58 : COLON ∉ dec i := dec_not_mem i COLON (by decide)
-  have hb : body salt i c = salt ++ SEP ++ (dec i ++ SEP ++ dec c) := by simp [body]
-  unfold parseDivider
-  simp only [htrim, splitFirst_prefix cur _ hcur]
-  rw [hb]
-  simp only [splitFirst_sep salt _ hs, splitFirst_sep (dec i) _ h58, parseUsize_dec i hi, parseI32_dec c hc]
+    have := needle_tail salt i c
+    rw [hg] at this
+    simp only [List.append_assoc] at this ⊢
+    rw [this]
+  unfold parseSalted
+  simp only [htrim, splitFirst_needle salt cur _ h126 hcur, parseDivider_bare salt i c hs hi hc]
 
-theorem parseDivider_plain (cur : Bytes) (hcur : ¬ PREFIX <:+: cur) :
-    parseDivider (cur ++ [LF]) = some .notFound := by
-  have h : splitFirst PREFIX (trimNewlines (cur ++ [LF])) = none := by
+theorem parseSalted_plain (salt cur : Bytes) (hcur : ¬ needle salt <:+: cur) :
+    parseSalted salt (cur ++ [LF]) = some .notFound := by
+  have h : splitFirst (needle salt) (trimNewlines (cur ++ [LF])) = none := by
     rw [trimNewlines_snoc_lf, splitFirst_none_iff]
     exact fun hin => hcur (List.IsInfix.trans hin (trimNewlines_prefix cur).isInfix)
-  unfold parseDivider
+  unfold parseSalted
   simp only [h]
 
 /-! ### one test's chunk, then the whole stream -/
@@ -256,14 +325,15 @@ theorem chunk_eq (salt : Bytes) (i c : Nat) (payload : Bytes) :
   simp [chunk, body]
 
 theorem iterLines_chunk (limit : Option Nat) (salt : Bytes) (hs : COLON ∉ salt) (hsl : LF ∉ salt)
+    (h126 : (126 : UInt8) ∉ salt)
     (i c : Nat) (hi : i < 2 ^ 64) (hc : c < 2 ^ 31) (hl : ∀ n, limit = some n → i < n) (rest : Bytes) :
-    ∀ (payload cur : Bytes) (buf : List Bytes), ¬ PREFIX <:+: (cur ++ payload) →
-      iterLines limit (splitLines cur (chunk salt i payload c ++ rest)) buf i =
-        match iterLines limit (splitLines [] rest) [] (i + 1) with
+    ∀ (payload cur : Bytes) (buf : List Bytes), ¬ needle salt <:+: (cur ++ payload) →
+      iterLines salt limit (splitLines cur (chunk salt i payload c ++ rest)) buf i =
+        match iterLines salt limit (splitLines [] rest) [] (i + 1) with
         | .ok r => .ok ((buf.flatten ++ cur ++ payload, (c : Int)) :: r)
         | .error e => .error e := by
   intro payload
-  generalize hR : iterLines limit (splitLines [] rest) [] (i + 1) = R
+  generalize hR : iterLines salt limit (splitLines [] rest) [] (i + 1) = R
   induction payload with
   | nil =>
     intro cur buf hno
@@ -272,7 +342,7 @@ theorem iterLines_chunk (limit : Option Nat) (salt : Bytes) (hs : COLON ∉ salt
     have hline := splitLines_line (PREFIX ++ body salt i c) cur rest (lf_not_mem_body salt i c hsl)
     simp only [List.nil_append, List.append_assoc, List.singleton_append] at hline ⊢
     rw [hline]
-    have hp := parseDivider_divider salt cur i c hs hno hi hc
+    have hp := parseSalted_divider salt cur i c hs h126 hno hi hc
     simp only [List.append_assoc] at hp
     unfold iterLines
     simp only [hp, ne_eq, not_true_eq_false, if_false]
@@ -288,28 +358,29 @@ theorem iterLines_chunk (limit : Option Nat) (salt : Bytes) (hs : COLON ∉ salt
     rw [hstep]
     by_cases hb : b = LF
     · subst hb
-      have hcur : ¬ PREFIX <:+: cur := fun hin => hno (List.IsInfix.trans hin (List.prefix_append _ _).isInfix)
-      have hp' : ¬ PREFIX <:+: ([] ++ p) := fun hin =>
+      have hcur : ¬ needle salt <:+: cur := fun hin => hno (List.IsInfix.trans hin (List.prefix_append _ _).isInfix)
+      have hp' : ¬ needle salt <:+: ([] ++ p) := fun hin =>
         hno (List.IsInfix.trans hin (by simpa using (List.suffix_append (cur ++ [LF]) p).isInfix))
       simp only [splitLines, if_true]
       unfold iterLines
-      simp only [parseDivider_plain cur hcur]
+      simp only [parseSalted_plain salt cur hcur]
       rw [ih [] (buf ++ [cur ++ [LF]]) hp']
       cases R <;> simp
-    · have hno' : ¬ PREFIX <:+: ((cur ++ [b]) ++ p) := by simpa using hno
+    · have hno' : ¬ needle salt <:+: ((cur ++ [b]) ++ p) := by simpa using hno
       simp only [splitLines, hb, if_false]
       rw [ih (cur ++ [b]) buf hno']
       cases R <;> simp
 
-theorem noDivider_iff (p : Bytes) : noDivider p = true ↔ ¬ PREFIX <:+: p := by
-  unfold noDivider
+theorem noSalted_iff (salt p : Bytes) : noSalted salt p = true ↔ ¬ needle salt <:+: p := by
+  unfold noSalted
   rw [Option.isNone_iff_eq_none, splitFirst_none_iff]
 
-theorem iterLines_joinStream (limit : Option Nat) (salt : Bytes) (hs : COLON ∉ salt) (hsl : LF ∉ salt) :
+theorem iterLines_joinStream (limit : Option Nat) (salt : Bytes) (hs : COLON ∉ salt) (hsl : LF ∉ salt)
+    (h126 : (126 : UInt8) ∉ salt) :
     ∀ (tests : List (Bytes × Nat)) (i : Nat),
-      (∀ t ∈ tests, noDivider t.1 = true ∧ t.2 < 2 ^ 31) → i + tests.length ≤ 2 ^ 64 →
+      (∀ t ∈ tests, noSalted salt t.1 = true ∧ t.2 < 2 ^ 31) → i + tests.length ≤ 2 ^ 64 →
       (∀ n, limit = some n → i + tests.length ≤ n) →
-      iterLines limit (splitLines [] (joinStream salt i tests)) [] i =
+      iterLines salt limit (splitLines [] (joinStream salt i tests)) [] i =
         .ok (tests.map fun t => (t.1, (t.2 : Int))) := by
   intro tests
   induction tests with
@@ -318,10 +389,10 @@ theorem iterLines_joinStream (limit : Option Nat) (salt : Bytes) (hs : COLON ∉
     intro i hall hlen hlim
     obtain ⟨p, c⟩ := t
     have ht := hall (p, c) (by simp)
-    have hno : ¬ PREFIX <:+: ([] ++ p) := by simpa using (noDivider_iff p).1 ht.1
+    have hno : ¬ needle salt <:+: ([] ++ p) := by simpa using (noSalted_iff salt p).1 ht.1
     simp only [List.length_cons] at hlen hlim
     simp only [joinStream]
-    rw [iterLines_chunk limit salt hs hsl i c (by omega) ht.2 (fun n hn => by have := hlim n hn; omega)
+    rw [iterLines_chunk limit salt hs hsl h126 i c (by omega) ht.2 (fun n hn => by have := hlim n hn; omega)
       (joinStream salt (i + 1) r) p [] [] hno]
     rw [ih (i + 1) (fun t ht' => hall t (by simp [ht'])) (by omega) (fun n hn => by have := hlim n hn; omega)]
     simp
@@ -357,20 +428,21 @@ theorem zipErr_nil : ∀ tests : List (Bytes × Nat),
 
 /-- separated streams: STDOUT carries payload and exit code, STDERR the payload (its dividers
 always carry the exit code of the preceding `echo`, 0) -/
-theorem executeAll_separate (salt : Bytes) (hs : COLON ∉ salt) (hsl : LF ∉ salt) (skip scriptExit : Int)
+theorem executeAll_separate (salt : Bytes) (hs : COLON ∉ salt) (hsl : LF ∉ salt) (h126 : (126 : UInt8) ∉ salt)
+    (skip scriptExit : Int)
     (tests : List (Bytes × Bytes × Nat)) (hse : scriptExit ≠ skip) (hlen : tests.length ≤ 2 ^ 64)
-    (hg : ∀ t ∈ tests, noDivider t.1 = true ∧ noDivider t.2.1 = true ∧ t.2.2 < 2 ^ 31 ∧ (t.2.2 : Int) ≠ skip) :
-    executeAll tests.length false skip scriptExit
+    (hg : ∀ t ∈ tests, noSalted salt t.1 = true ∧ noSalted salt t.2.1 = true ∧ t.2.2 < 2 ^ 31 ∧ (t.2.2 : Int) ≠ skip) :
+    executeAll salt tests.length false skip scriptExit
         (joinStream salt 0 (tests.map fun t => (t.1, t.2.2)))
         (joinStream salt 0 (tests.map fun t => (t.2.1, 0))) =
       .ok (tests.map fun t => ⟨t.1, t.2.1, (t.2.2 : Int)⟩) := by
-  have hout := iterLines_joinStream none salt hs hsl (tests.map fun t => (t.1, t.2.2)) 0
+  have hout := iterLines_joinStream none salt hs hsl h126 (tests.map fun t => (t.1, t.2.2)) 0
     (by
       intro t ht
       obtain ⟨u, hu, rfl⟩ := List.mem_map.1 ht
       exact ⟨(hg u hu).1, (hg u hu).2.2.1⟩)
     (by simpa using hlen) (by intro n hn; cases hn)
-  have herr := iterLines_joinStream (some tests.length) salt hs hsl (tests.map fun t => (t.2.1, 0)) 0
+  have herr := iterLines_joinStream (some tests.length) salt hs hsl h126 (tests.map fun t => (t.2.1, 0)) 0
     (by
       intro t ht
       obtain ⟨u, hu, rfl⟩ := List.mem_map.1 ht
@@ -388,12 +460,13 @@ theorem executeAll_separate (salt : Bytes) (hs : COLON ∉ salt) (hsl : LF ∉ s
   exact congrArg ExecResult.ok (zipErr_map _ tests)
 
 /-- merged streams (`output_stream: combined`): only STDOUT is split -/
-theorem executeAll_combined (salt : Bytes) (hs : COLON ∉ salt) (hsl : LF ∉ salt) (skip scriptExit : Int)
+theorem executeAll_combined (salt : Bytes) (hs : COLON ∉ salt) (hsl : LF ∉ salt) (h126 : (126 : UInt8) ∉ salt)
+    (skip scriptExit : Int)
     (tests : List (Bytes × Nat)) (stderr : Bytes) (hse : scriptExit ≠ skip) (hlen : tests.length ≤ 2 ^ 64)
-    (hg : ∀ t ∈ tests, noDivider t.1 = true ∧ t.2 < 2 ^ 31 ∧ (t.2 : Int) ≠ skip) :
-    executeAll tests.length true skip scriptExit (joinStream salt 0 tests) stderr =
+    (hg : ∀ t ∈ tests, noSalted salt t.1 = true ∧ t.2 < 2 ^ 31 ∧ (t.2 : Int) ≠ skip) :
+    executeAll salt tests.length true skip scriptExit (joinStream salt 0 tests) stderr =
       .ok (tests.map fun t => ⟨t.1, [], (t.2 : Int)⟩) := by
-  have hout := iterLines_joinStream none salt hs hsl tests 0
+  have hout := iterLines_joinStream none salt hs hsl h126 tests 0
     (fun t ht => ⟨(hg t ht).1, (hg t ht).2.1⟩) (by simpa using hlen) (by intro n hn; cases hn)
   have hskip : firstSkip skip (tests.map fun t => (t.1, (t.2 : Int))) 0 = none := by
     apply firstSkip_none
